@@ -20,7 +20,8 @@ def pyLower (s : Str) : Str := s.map Char.toLower
 
 /-- ASCII `str.isupper()` on the first character as used by the LoPar writer:
     `word[0].isupper()`. -/
-def pyIsUpperChar (c : Char) : Bool := c.isUpper
+def pyIsUpperChar (c : Char) : Bool :=
+  c.isUpper || (0xC0 ≤ c.toNat && c.toNat ≤ 0xDE && c.toNat != 0xD7)   -- Latin-1 capitals too
 
 /-- `string.whitespace` -/
 def pyIsSpace (c : Char) : Bool :=
